@@ -47,6 +47,9 @@ func runC03(c *core.Ctx) {
 	c03Count(c, root)
 	c03CopyOut(c, root)
 	c03Empty(c, root)
+	c03Purge(c, root)
+	c03Insert(c, root)
+	c03Points(c, root)
 }
 
 func c03Skeleton(c *core.Ctx, root *packages.Package) {
